@@ -155,3 +155,87 @@ Proof.
   - eexists _, _, _. exact HC.
 Qed.
 Print Assumptions C08_node_premises_satisfiable_with_ignored_and_unscaled_nodes.
+
+(* ---------------------------------------------------------------------------------------------------------------------------------- *)
+(* The CYCLIC class in node mode (kMinPathErrorCycles, flow_attr_origin = 'node'), in the caller's terms (NodeWalkErrE2E.v): the k walks
+   are walks of the caller's graph (DilworthNode.nwalk, additional starts S / ends T included), every visit of a node counts.  Relative
+   to the solver specification and WITHIN THE CAPS of the encoder (node_kmpec_adm = the model's predicate on the expanded tuple, spelled
+   out by C08_node_cyclic_reading: at every counting node v, scale(v) * |weight(v) - sum_i w_i * visits_i(v)| <= sum_i slack_i * visits_i(v)):
+   the objective of an optimal satisfying assignment of the node-expanded instance's model is the least total slack over all such
+   weighted node walks, and the model is satisfiable iff such walks exist. *)
+From FP Require Import WalkEncRows WalkErrEnc NodeWalkE2E NodeWalkErrE2E.
+Theorem C08_node_cyclic_optimal_within_caps :
+  forall (V : list node) (E : list PathEnc.edge) (S T : list node) (s t : node) (Wn : list node) (fq sc : node -> Q) (ign : list node)
+         (isint : bool),
+  ~ In s (expV V) -> ~ In t (expV V) -> s <> t -> (forall e, In e E -> In (fst e) V /\ In (snd e) V) -> NoDup V -> NoDup E ->
+  forall (k : nat) (a : var -> Q),
+  sat a (encode_kmpe_cycles (node_werr_inst V E S T s t Wn fq sc ign isint k)) ->
+  (forall b, sat b (encode_kmpe_cycles (node_werr_inst V E S T s t Wn fq sc ign isint k)) ->
+     (objective a (encode_kmpe_cycles (node_werr_inst V E S T s t Wn fq sc ign isint k)) <=
+      objective b (encode_kmpe_cycles (node_werr_inst V E S T s t Wn fq sc ign isint k)))%Q) ->
+  (exists Pn w sl, node_walks V E S T k Pn /\ node_kmpec_adm V E S T s t Wn fq sc ign isint k Pn w sl /\
+                   (sumq sl (layers k) == objective a (encode_kmpe_cycles (node_werr_inst V E S T s t Wn fq sc ign isint k)))%Q) /\
+  (forall Pn w sl, node_walks V E S T k Pn -> node_kmpec_adm V E S T s t Wn fq sc ign isint k Pn w sl ->
+                   (objective a (encode_kmpe_cycles (node_werr_inst V E S T s t Wn fq sc ign isint k)) <= sumq sl (layers k))%Q).
+Proof. exact node_kmpec_optimal. Qed.
+Print Assumptions C08_node_cyclic_optimal_within_caps.
+
+Theorem C08_node_cyclic_feasible_iff_within_caps :
+  forall (V : list node) (E : list PathEnc.edge) (S T : list node) (s t : node) (Wn : list node) (fq sc : node -> Q) (ign : list node)
+         (isint : bool),
+  ~ In s (expV V) -> ~ In t (expV V) -> s <> t -> (forall e, In e E -> In (fst e) V /\ In (snd e) V) -> NoDup V -> NoDup E ->
+  forall k : nat,
+  (exists a, sat a (encode_kmpe_cycles (node_werr_inst V E S T s t Wn fq sc ign isint k))) <->
+  (exists Pn w sl, node_walks V E S T k Pn /\ node_kmpec_adm V E S T s t Wn fq sc ign isint k Pn w sl).
+Proof. exact node_kmpec_feasible_iff. Qed.
+Print Assumptions C08_node_cyclic_feasible_iff_within_caps.
+
+Theorem C08_node_cyclic_reading :
+  forall (V : list node) (E : list PathEnc.edge) (S T : list node) (s t : node) (Wn : list node) (fq sc : node -> Q) (ign : list node)
+         (isint : bool),
+  ~ In s (expV V) -> ~ In t (expV V) -> (forall e, In e E -> In (fst e) V /\ In (snd e) V) ->
+  (forall v, In v V -> ~ In v ign -> In v Wn) ->
+  forall (k : nat) (Pn : N -> list node) (w sl : N -> Q),
+  node_walks V E S T k Pn -> node_kmpec_adm V E S T s t Wn fq sc ign isint k Pn w sl ->
+  (forall i, In i (layers k) -> (0 <= w i <= x_wmax (node_werr_inst V E S T s t Wn fq sc ign isint k))%Q /\ (isint = true -> is_int (w i))) /\
+  (forall i, In i (layers k) -> (0 <= sl i <= x_wmax (node_werr_inst V E S T s t Wn fq sc ign isint k))%Q /\ (isint = true -> is_int (sl i))) /\
+  (forall i v, In i (layers k) -> In v V ->
+     (inject_Z (visits v (Pn i)) <= cap (werr_walk (node_werr_inst V E S T s t Wn fq sc ign isint k)) (nedge v))%Q) /\
+  (forall i e, In i (layers k) -> In e E ->
+     (inject_Z (traversals e (Pn i)) <= cap (werr_walk (node_werr_inst V E S T s t Wn fq sc ign isint k)) (cn e))%Q) /\
+  (forall i v, In i (layers k) -> In v (NodeErrE2E.nodes_basic V ign sc) ->
+     (w i * inject_Z (visits v (Pn i)) <= x_wmax (node_werr_inst V E S T s t Wn fq sc ign isint k))%Q /\
+     (sl i * inject_Z (visits v (Pn i)) <= x_wmax (node_werr_inst V E S T s t Wn fq sc ign isint k))%Q) /\
+  (forall v, In v (NodeErrE2E.nodes_basic V ign sc) ->
+     (Qabs.Qabs (sc v * (fq v - node_wexplains k Pn w v)) <= node_wexplains k Pn sl v)%Q).
+Proof. exact node_kmpec_reading. Qed.
+Print Assumptions C08_node_cyclic_reading.
+
+(* non-vacuity with a self-loop and a NON-ZERO optimum: 1 -> 2 -> 3 with a self-loop at 2, node weights 3, 6, 1, one walk: the walk
+   1 2 2 2 3 of weight 2 with slack 1 is within the caps (total slack 1), and every admissible triple has total slack >= 1 *)
+Example C08_node_cyclic_self_loop_nonzero_optimum :
+  NoDup lxV /\ NoDup lxE /\ (forall e, In e lxE -> In (fst e) lxV /\ In (snd e) lxV) /\
+  ~ In 100%N (expV lxV) /\ ~ In 101%N (expV lxV) /\ 100%N <> 101%N /\ (forall v, In v lxV -> ~ In v [] -> In v lxV) /\
+  node_walks lxV lxE [] [] 1 lxPn /\ visits 2%N (lxPn 0%N) = 3%Z /\
+  node_kmpec_adm lxV lxE [] [] 100%N 101%N lxV wxfq wxsc [] false 1 lxPn lxw wxsl /\
+  (sumq wxsl (layers 1) == 1)%Q /\
+  (forall Pn w sl, node_walks lxV lxE [] [] 1 Pn -> node_kmpec_adm lxV lxE [] [] 100%N 101%N lxV wxfq wxsc [] false 1 Pn w sl ->
+                   (1 <= sumq sl (layers 1))%Q) /\
+  (exists a, sat a (encode_kmpe_cycles (node_werr_inst lxV lxE [] [] 100%N 101%N lxV wxfq wxsc [] false 1))).
+Proof.
+  destruct wx_premises as (A1 & A2 & A3 & A4 & A5 & A6 & A7 & _ & A9 & A10 & _ & _ & _ & A14 & A15 & A16).
+  split; [exact A1|]. split; [exact A2|]. split; [exact A3|]. split; [exact A4|]. split; [exact A5|]. split; [exact A6|]. split; [exact A7|].
+  split; [exact A9|]. split; [exact A10|]. split; [exact A14|]. split; [exact A15|]. split; [exact A16|].
+  apply (node_kmpec_feasible_iff lxV lxE [] [] 100%N 101%N lxV wxfq wxsc [] false A4 A5 A6 A3 A1 A2 1).
+  exists lxPn, lxw, wxsl. split; [exact A9|exact A14].
+Qed.
+Print Assumptions C08_node_cyclic_self_loop_nonzero_optimum.
+
+(* the SOLVER hypotheses (sat a + optimality of a) of the theorem above are satisfiable on the self-loop instance: an optimal satisfying
+   assignment exists and its objective is 1 (non-zero) *)
+Example C08_node_cyclic_solver_hypotheses_satisfiable :
+  exists a, sat a (encode_kmpe_cycles (node_werr_inst lxV lxE [] [] 100%N 101%N lxV wxfq wxsc [] false 1)) /\
+    (forall b, sat b (encode_kmpe_cycles (node_werr_inst lxV lxE [] [] 100%N 101%N lxV wxfq wxsc [] false 1)) -> (objective a (encode_kmpe_cycles (node_werr_inst lxV lxE [] [] 100%N 101%N lxV wxfq wxsc [] false 1)) <= objective b (encode_kmpe_cycles (node_werr_inst lxV lxE [] [] 100%N 101%N lxV wxfq wxsc [] false 1)))%Q) /\
+    (objective a (encode_kmpe_cycles (node_werr_inst lxV lxE [] [] 100%N 101%N lxV wxfq wxsc [] false 1)) == 1)%Q.
+Proof. exact (proj2 wx_solver_hypotheses). Qed.
+Print Assumptions C08_node_cyclic_solver_hypotheses_satisfiable.
